@@ -66,8 +66,14 @@ def hidden(rel_path: str) -> bool:
     return any(c.startswith(".") for c in rel_path.split("/"))
 
 
+# file names (not extensions) that Pygments' Python lexer claims: Bazel / SCons / Buck build files
+LANGUAGE_OF_NAME = {"BUILD": "Python", "WORKSPACE": "Python", "SConstruct": "Python", "SConscript": "Python", "BUCK": "Python", "BUILD.bazel": "Python", "TARGETS": "Python"}
+
+
 def language_of(rel_path: str):
     name = rel_path.split("/")[-1]
+    if name in LANGUAGE_OF_NAME:
+        return LANGUAGE_OF_NAME[name]
     if "." not in name:
         return None
     return LANGUAGE_OF_EXT.get(name.rsplit(".", 1)[1])
